@@ -37,16 +37,29 @@ end Node
 
 /-! ## keyword binding -/
 
+/-- one field of `cls(**kwargs)`: the given value, else the default, else TypeError -/
+def bindOne (kwargs : List (String × Val)) (p : String × Option Val) : Except PyErr (String × Val) :=
+  match lookup p.1 kwargs, p.2 with
+  | some v, _ => .ok (p.1, v)
+  | Option.none, some d => .ok (p.1, d)
+  | Option.none, Option.none => .error .typeError
+
+def bindAll (kwargs : List (String × Val)) : List (String × Option Val) → Except PyErr (List (String × Val))
+  | [] => .ok []
+  | p :: rest =>
+    match bindOne kwargs p with
+    | .error e => .error e
+    | .ok x =>
+      match bindAll kwargs rest with
+      | .error e => .error e
+      | .ok xs => .ok (x :: xs)
+
 /-- `cls(**kwargs)`: every key must be a field, every mandatory field must be given;
 defaults are filled in.  Result is in dataclass field order. -/
 def bindKwargs (spec : List (String × Option Val)) (kwargs : List (String × Val)) :
-    Except PyErr (List (String × Val)) := do
-  if kwargs.any (fun kv => !(hasKey kv.1 spec)) then throw .typeError
-  spec.mapM fun (name, dflt) =>
-    match lookup name kwargs, dflt with
-    | some v, _ => pure (name, v)
-    | Option.none, some d => pure (name, d)
-    | Option.none, Option.none => throw .typeError
+    Except PyErr (List (String × Val)) :=
+  if kwargs.any (fun kv => !(hasKey kv.1 spec)) then .error .typeError
+  else bindAll kwargs spec
 
 /-! ## helpers for `__post_init__` bodies -/
 
